@@ -239,7 +239,7 @@ func encodeLegacyAddress(hash160 []byte, netID byte) string {
 // in both pay-to-pubkey-hash (P2PKH) and pay-to-script-hash (P2SH) address
 // encoding.
 func encodeCashAddress(hash160 []byte, prefix string, t AddressType) string {
-	return checkEncodeCashAddress(hash160[:ripemd160.Size], prefix, t)
+	return checkEncodeCashAddress(hash160, prefix, t)
 }
 
 // AddressPubKeyHash is an Address for a pay-to-pubkey-hash (P2PKH)
@@ -759,18 +759,20 @@ func checkDecodeCashAddress(input string) (result []byte, prefix string, t Addre
 	if err != nil {
 		return data, prefix, AddrTypePayToPubKeyHash, err
 	}
-	if len(data) != 21 {
+	if len(data) != 1+ripemd160.Size && len(data) != 1+sha256.Size {
 		return data, prefix, AddrTypePayToPubKeyHash, errors.New("incorrect data length")
 	}
-	switch data[0] {
-	case 0x00:
+	switch {
+	case data[0] == 0x00 && len(data) == 1+ripemd160.Size:
 		t = AddrTypePayToPubKeyHash
-	case 0x08:
+	case data[0] == 0x08 && len(data) == 1+ripemd160.Size:
 		t = AddrTypePayToScriptHash
+	case data[0] == 0x0b && len(data) == 1+sha256.Size:
+		t = AddrTypePayToScriptHash32
 	default:
 		return data, prefix, AddrTypePayToPubKeyHash, ErrUnknownAddressType
 	}
-	return data[1:21], prefix, t, nil
+	return data[1:], prefix, t, nil
 }
 
 // AddressType represents the type of address and is used
